@@ -69,6 +69,7 @@ struct HistConfig {
   bool audit_every_step = false;               // compare every parameter of every handle after every step (C12/C16 thoroughness)
   bool c_interface = true;
   std::string stop_on;                         // "" = stop at the first failure of any property
+  std::string escape_prop;                     // property blamed when a fatal error escapes from a call that is legal in the model
   int fatal_mode = 0;                          // C16: 0 = exception build, catch int in-process; 1 = exit() build, observe a forked child
 };
 
@@ -226,6 +227,7 @@ struct History {
           std::vector<double> ref; int rcpp; { Quiet q; rcpp = masa_get_vec<double>(n, ref); } size_t cap = valid ? ref.size() : 4; double *buf = (double *)malloc(sizeof(double) * (cap ? cap : 1)); for (size_t i = 0; i < cap; i++) buf[i] = 777.0; int nn = -5; int rc; { Quiet q; rc = ::masa_get_array(n.c_str(), &nn, buf); }
           if (rc != rcpp) fail("C17", "C masa_get_array('" + n + "') returned status " + std::to_string(rc) + ", masa_get_vec<double> reports " + std::to_string(rcpp)); cls[rcpp ? "c_get_array_nonzero_status" : "c_get_array_zero_status"]++;
           if (valid) { if (nn != (int)ref.size()) fail("C17", "C masa_get_array('" + n + "') reports length " + std::to_string(nn) + ", the vector has " + std::to_string(ref.size())); else for (size_t i = 0; i < ref.size(); i++) if (!biteq<double>(buf[i], ref[i])) { fail("C17", "C masa_get_array('" + n + "')[" + std::to_string(i) + "] differs from masa_get_vec<double>"); break; } }
+          else { if (nn != (int)ref.size()) fail("C17", "C masa_get_array of the unknown name '" + n + "' reports length " + std::to_string(nn) + ", masa_get_vec<double> leaves the caller's vector at length " + std::to_string(ref.size())); else for (size_t i = 0; i < cap; i++) if (buf[i] != 777.0) { fail("C17", "C masa_get_array of an unknown name wrote into the caller's array"); break; } }
           free(buf); break; }
       case OP_CEVAL: { SolModel *m = selm(); if (!m) break; const auto &C = capi_table(); const auto &T = api_table<double>(); const CapSpec &cs = capspec(); int ci = (unsigned)o.api % C.size();
           auto pit = cs.provides.find(m->name); if (o.n % 3 != 0 && pit != cs.provides.end()) { std::vector<int> mine; for (size_t i = 0; i < C.size(); i++) if (pit->second.count(C[i].cxx_id)) mine.push_back((int)i); if (!mine.empty()) ci = mine[(unsigned)o.api % mine.size()]; }
